@@ -43,7 +43,7 @@ theorem samples_tied :
     Generated.PixelSamples.layerInversions =
       [("pil_im.mode == 'CMYK'", "pil_im = ImageChops.invert(pil_im)")] ∧
     Generated.PixelSamples.docFrompil =
-      ["if image.mode == '1': { image = image.convert('L') }", "header = cls._make_header(image.mode, image.size)", "if image.mode == 'CMYK': { image = ImageChops.invert(image) }", "image_data = ImageData(compression=compression)", "image_data.set_data([channel.tobytes() for channel in image.split()], header)", "return cls(PSD(header=header, image_data=image_data, image_resources=ImageResources.new()))"] ∧
+      ["if image.mode == '1': { image = image.convert('L') }", "header = cls._make_header(image.mode, image.size)", "if image.mode == 'CMYK': { image = ImageChops.invert(image) } else { if image.mode in ('La', 'RGBa'): { image = image.convert(image.mode.upper()) } }", "image_data = ImageData(compression=compression)", "image_data.set_data([channel.tobytes() for channel in image.split()], header)", "return cls(PSD(header=header, image_data=image_data, image_resources=ImageResources.new()))"] ∧
     Generated.PixelSamples.docInversions =
       [("image.mode == 'CMYK'", "image = ImageChops.invert(image)")] ∧
     Generated.PixelSamples.headerDepthDefault =
